@@ -13,6 +13,7 @@ package vrt
 
 import (
 	"fmt"
+	"os"
 	"runtime"
 	"sort"
 	"strings"
@@ -680,7 +681,25 @@ func Run(cfg Config, prefix []int, body func()) *Result {
 	active.Store(e)
 	root.started = true
 	go e.threadMain(root)
-	<-e.done
+	// watchdog: a running thread that reaches no scheduling point for a long time is blocked in something
+	// the engine does not own (a real lock, a real channel, real I/O): that is an engine error, never a verdict.
+	wd := time.NewTicker(15 * time.Second)
+	last := -1
+	waiting := true
+	for waiting {
+		select {
+		case <-e.done:
+			waiting = false
+		case <-wd.C:
+			if e.points == last {
+				buf := make([]byte, 1<<20)
+				fmt.Fprintf(os.Stderr, "ENGINE ERROR: no scheduling point for 15s (thread blocked outside the scheduler)\n%s\n", buf[:runtime.Stack(buf, true)])
+				os.Exit(2)
+			}
+			last = e.points
+		}
+	}
+	wd.Stop()
 	// kill every thread that is still parked; they unwind via Goexit.
 	for _, t := range e.threads {
 		if t.started {
